@@ -8,7 +8,8 @@ import contracts.dispatch as cd
 def run(rep, kf, tier, seed):
     cfgc.reads_frame_obligations(rep, "C16")
     import contracts.responses_b as rb
-    engine_b.discharge(rep, kf, [cfgc.get_content_type_contract(), cfgc.class_from_string_contract(), cc.from_data_contract(),
+    engine_b.discharge(rep, kf, [cfgc.get_content_type_contract(), cfgc.class_from_string_contract(), cfgc.from_sources_contract(),
+                                 cc.from_data_contract(),
                                  rb.body_from_data_contract(), rb.source_table_contract()],
                        "C16", tier, seed)
     import contracts.project as cproj
